@@ -14,12 +14,21 @@ from harness import vlib
 from harness.vlib import coq_str
 from harness.props import c13_fam as F
 from harness.props import c13_codec as CD
+from harness.props import c13_doc as DOC
 
-THEOREMS = ["C13_isolation", "C13_default_unaltered", "C13_shared_cache_refuted", "C13_merge_total",
-            "C13_merge_covers_all_options", "C13_merge_strategies", "C13_codec_option_uniform",
-            "C13_twin_partial", "C13_call_dialect_refuted", "C13_union_partial",
-            "C13_union_member_flags_refuted", "C13_options_only_via_resolution", "C13_every_option_read",
-            "C13_option_defaults_consistent", "C13_flag_keyword_default", "C13_twin_strategy_sources"]
+PROPS = [
+    ("props/C13_isolation.vo", ["C13_isolation", "C13_default_unaltered", "C13_shared_cache_refuted"], []),
+    ("props/C13_merge.vo", ["C13_merge_total", "C13_merge_covers_all_options", "C13_merge_strategies", "C13_codec_option_uniform"],
+     ["K2", "K3", "K13"]),
+    ("props/C13_twin.vo", ["C13_twin_partial", "C13_call_dialect_refuted", "C13_union_partial", "C13_union_member_flags_refuted",
+                           "C13_options_only_via_resolution", "C13_every_option_read", "C13_option_defaults_consistent",
+                           "C13_flag_keyword_default", "C13_twin_strategy_sources"], ["K2", "K3", "K5", "K13", "K13F"]),
+    ("props/C13_forward.vo", ["C13_unpack_flags", "C13_self_forwards_dialect", "C13_flag_sites"], ["K13U"]),
+    ("props/C13_document.vo", ["C13_codec_plans", "C13_merge_is_model", "C13_same_document_silent", "C13_silent_formats",
+                               "C13_same_document_toml", "C13_codec_user_option_wins", "C13_same_document_partial",
+                               "C13_same_document_full_refuted", "C13_cache_names_injective", "C13_method_names_separate"],
+     ["K2", "K11", "K13", "K13C"]),
+]
 
 BOOL_OPTS = ("omit_none", "omit_default", "serialize_by_alias", "namedtuple_as_dict")
 FIVE = ("serialize_by_alias", "namedtuple_as_dict", "omit_none", "omit_default", "no_copy_collections")
@@ -829,7 +838,8 @@ def run(ctx: vlib.Ctx):
         "interleavings of class definitions and to_dict/from_dict calls with dialects from {None, D1..Dk}; distinct = (history, class, "
         "direction, dialect). codecs: 6 formats x all 2^6 settings (5 options set/unset x strategy map) x dataclass shapes x values; "
         "distinct = (format, option vector, shape, value). merge: random option namespaces / strategy maps.")
-    ctx.theorems("props/C13_dialects.vo", THEOREMS, kernels=["K2", "K3", "K5", "K13", "K13F"])
+    for target, names, kernels in PROPS:      # one file per theorem family: a broken proof marks only its own family
+        ctx.theorems(target, names, kernels=kernels)
     ctx.trusted += [
         "DialectCache.step: model of the generated prologue/dispatch of add_(un)pack_method (attribute lookup through the MRO, "
         "own-namespace creation, dict item assignment); compared with real class families on every run",
@@ -849,6 +859,7 @@ def run(ctx: vlib.Ctx):
     history_part(ctx)
     d14_probe(ctx)
     union_part(ctx)
+    DOC.run_all(ctx)
     CD.codec_part(ctx)
     if ctx.tier == "thorough":
         coqchk(ctx)
@@ -861,13 +872,17 @@ def run(ctx: vlib.Ctx):
 
 
 def coqchk(ctx: vlib.Ctx):
-    """Second opinion of the independent checker on the compiled property file (thorough tier)."""
-    rc, log, secs = vlib.run(["timeout", "600", "coqchk", "-silent", "-o", "-Q", "theories", "Verif", "-Q", "gen", "VerifGen",
-                              "-Q", "props", "VerifProps", "VerifProps.C13_dialects"], cwd=vlib.COQ, timeout=630)
-    ok = rc == 0 and "Axioms: <none>" in log and "type-in-type: <none>" in log
-    ctx.obligation("coqchk VerifProps.C13_dialects (no axioms, no type-in-type, no unsafe fixpoints)", ok, log[-600:])
-    if not ok:
-        ctx.not_shown("coqchk VerifProps.C13_dialects", log[-1500:])
+    """Second opinion of the independent checker on the compiled property files (thorough tier)."""
+    for target, _names, _k in PROPS:
+        lib = "VerifProps." + os.path.basename(target)[:-3]
+        rc, log, secs = vlib.run(["timeout", "900", "coqchk", "-silent", "-o", "-Q", "theories", "Verif", "-Q", "gen", "VerifGen",
+                                  "-Q", "props", "VerifProps", lib], cwd=vlib.COQ, timeout=930)
+        ok = rc == 0 and "Axioms: <none>" in log and "type-in-type: <none>" in log
+        ctx.obligation(f"coqchk {lib} (no axioms, no type-in-type, no unsafe fixpoints)", ok, log[-600:])
+        if ok:
+            ctx.trusted.append(f"coqchk -o {lib}: Axioms: <none>")
+        else:
+            ctx.not_shown(f"coqchk {lib}", log[-1500:])
 
 
 def replay(rep: dict) -> int:
